@@ -243,4 +243,83 @@ theorem incrN_eq (v : View) (h : v.strides.length = v.shape.length) (k : Nat) (h
     simp only [Iter.mk.injEq, and_true]
     ring
 
+/-! ### `pos_to_flat` / `flat_to_pos` -/
+
+theorem posToFlatGo_eq (ds : List Nat) (k : Nat) (cum : Int) (hk : k < shapeSize ds) :
+    posToFlatGo ds ((unravelLE ds k).map Int.ofNat) cum = cum * (k : Int) := by
+  induction ds generalizing k cum with
+  | nil =>
+    simp [shapeSize] at hk
+    simp [posToFlatGo, hk]
+  | cons d ds ih =>
+    have hd : 0 < d := by
+      rcases Nat.eq_zero_or_pos d with h | h
+      · simp [shapeSize, h] at hk
+      · exact h
+    have hk' : k / d < shapeSize ds := by
+      apply Nat.div_lt_of_lt_mul
+      simpa [shapeSize] using hk
+    simp only [unravelLE, List.map_cons, posToFlatGo]
+    rw [ih _ _ hk']
+    have := Nat.div_add_mod k d
+    have h2 : (d : Int) * ((k / d : Nat) : Int) + ((k % d : Nat) : Int) = (k : Int) := by exact_mod_cast this
+    simp only [Int.ofNat_eq_natCast]
+    rw [← h2]
+    ring
+
+theorem flatToPosGo_eq (ds : List Nat) (k : Nat) :
+    flatToPosGo ds (k : Int) = ((unravelLE ds k).map Int.ofNat, ((k / shapeSize ds : Nat) : Int)) := by
+  induction ds generalizing k with
+  | nil => simp [flatToPosGo, unravelLE, shapeSize]
+  | cons d ds ih =>
+    simp only [flatToPosGo, unravelLE, shapeSize, List.map_cons]
+    have h1 : Int.tdiv (k : Int) (d : Int) = ((k / d : Nat) : Int) := by
+      rw [Int.tdiv_eq_ediv_of_nonneg (by omega)]; rfl
+    have h2 : Int.tmod (k : Int) (d : Int) = ((k % d : Nat) : Int) := by
+      rw [Int.tmod_eq_emod_of_nonneg (by omega)]; rfl
+    rw [h1, h2, ih, Nat.div_div_eq_div_mul]
+    rfl
+
+
+theorem reverse_unravelI (shape : List Nat) (k : Nat) (hk : k < shapeSize shape) :
+    (unravelI shape k).reverse = (unravelLE shape.reverse k).map Int.ofNat := by
+  unfold unravelI
+  rw [← List.map_reverse, unravelLE_reverse _ _ hk]
+
+theorem posToFlat_unravel (v : View) (k : Nat) (hk : k < shapeSize v.shape) :
+    v.posToFlat (unravelI v.shape k) = (k : Int) := by
+  unfold View.posToFlat
+  rw [reverse_unravelI _ _ hk, posToFlatGo_eq _ _ _ (by rw [shapeSize_reverse]; exact hk)]
+  ring
+
+theorem flatToPos_unravel (v : View) (k : Nat) (hk : k < shapeSize v.shape) :
+    v.flatToPos (k : Int) = unravelI v.shape k := by
+  unfold View.flatToPos
+  rw [flatToPosGo_eq]
+  simp only [shapeSize_reverse, Nat.div_eq_of_lt hk]
+  have : ((unravelLE v.shape.reverse k).map Int.ofNat).reverse = unravelI v.shape k := by
+    rw [← reverse_unravelI _ _ hk, List.reverse_reverse]
+  rw [this]
+  split <;> simp_all
+
+/-! ### unsigned stride division -/
+
+theorem unsignedStep_eq (sb : Int) (sz c : Nat) (h64 : sz ∣ two64) (hdiv : (sz : Int) ∣ sb) :
+    ((unsignedStepBytes sb sz c : Nat) : Int) = ((c : Int) * sb) % (two64 : Int) := by
+  unfold unsignedStepBytes
+  have h2pos : (0 : Int) < (two64 : Int) := by decide
+  have hnn : 0 ≤ sb % (two64 : Int) := Int.emod_nonneg _ (by omega)
+  have hu : (((sb % (two64 : Int)).toNat : Nat) : Int) = sb % (two64 : Int) := Int.toNat_of_nonneg hnn
+  have hdvd : (sz : Int) ∣ sb % (two64 : Int) := by
+    rw [Int.emod_def]
+    exact Int.dvd_sub hdiv (Dvd.dvd.mul_right (by exact_mod_cast h64) _)
+  have hdn : sz ∣ (sb % (two64 : Int)).toNat := by
+    have : (sz : Int) ∣ (((sb % (two64 : Int)).toNat : Nat) : Int) := by rw [hu]; exact hdvd
+    exact_mod_cast this
+  have hcancel : c * ((sb % (two64 : Int)).toNat / sz) * sz = c * (sb % (two64 : Int)).toNat := by
+    rw [Nat.mul_assoc, Nat.div_mul_cancel hdn]
+  rw [hcancel]
+  push_cast
+  rw [hu, Int.mul_emod, Int.emod_emod_of_dvd _ (dvd_refl _), ← Int.mul_emod]
+
 end Mahotas.C08
